@@ -3,6 +3,7 @@ package main
 // Contract stubs: sync, sync/atomic, fmt, errors.
 
 import (
+	"golang.org/x/tools/go/ssa"
 	"errors"
 	"fmt"
 	"go/token"
@@ -507,17 +508,118 @@ func rwLock(fr *frame, s structure, write bool) {
 
 // stubSets are per-harness stub collections selectable from checks/<id>.json.
 var stubSets = map[string]map[string]externalFn{
-	// os.Pipe without the kernel: two fresh *os.File objects
+	// os.Pipe without the kernel: two *os.File objects sharing an in-engine
+	// byte queue; Read blocks (scheduler) until data or the writer closes.
 	"os-pipe": {
 		"os.Pipe": func(fr *frame, args []value) value {
 			op := fr.i.prog.ImportedPackage("os")
 			ft := op.Type("File").Object().Type()
-			mk := func() value {
+			p := &pipeObj{}
+			mk := func(w bool) value {
 				cell := zero(ft)
+				cell.(structure)[0] = &pipeEnd{p: p, write: w}
 				return &cell
 			}
-			return tuple{mk(), mk(), iface{}}
+			return tuple{mk(false), mk(true), iface{}}
 		},
-		"(*os.File).Close": func(fr *frame, args []value) value { return iface{} },
+		"(*os.File).Close": func(fr *frame, args []value) value {
+			if e := pipeEndOf(fr, args[0]); e != nil {
+				if e.write {
+					e.p.wclosed = true
+				} else {
+					e.p.rclosed = true
+				}
+			}
+			return iface{}
+		},
+		"(*os.File).Read": func(fr *frame, args []value) value {
+			e := pipeEndOf(fr, args[0])
+			if e == nil || e.write {
+				panic(pathEnd{stUnsupported, "os.File.Read on something other than a stub pipe's read end"})
+			}
+			b := args[1].([]value)
+			if len(b) == 0 {
+				return tuple{0, iface{}}
+			}
+			schedYield(fr)
+			waitUntil(fr, "pipe read", func() bool { return len(e.p.buf) > 0 || e.p.wclosed })
+			if len(e.p.buf) == 0 {
+				return tuple{0, loadGlobalErr(fr, "io", "EOF")}
+			}
+			n := copy(b, e.p.buf)
+			e.p.buf = e.p.buf[n:]
+			return tuple{n, iface{}}
+		},
+		"(*os.File).Write": func(fr *frame, args []value) value {
+			e := pipeEndOf(fr, args[0])
+			if e == nil || !e.write {
+				panic(pathEnd{stUnsupported, "os.File.Write on something other than a stub pipe's write end"})
+			}
+			b := args[1].([]value)
+			schedYield(fr)
+			if e.p.rclosed {
+				return tuple{0, fr.i.mkError("write |1: broken pipe")}
+			}
+			e.p.buf = append(e.p.buf, b...)
+			return tuple{len(b), iface{}}
+		},
+		"(*os.File).WriteString": func(fr *frame, args []value) value {
+			e := pipeEndOf(fr, args[0])
+			if e == nil || !e.write {
+				panic(pathEnd{stUnsupported, "os.File.WriteString on something other than a stub pipe's write end"})
+			}
+			var b []value
+			switch x := args[1].(type) {
+			case string:
+				for k := 0; k < len(x); k++ {
+					b = append(b, x[k])
+				}
+			case sstr:
+				b = append(b, x.b...)
+			default:
+				panic(pathEnd{stUnsupported, "abstract string written to a stub pipe"})
+			}
+			schedYield(fr)
+			if e.p.rclosed {
+				return tuple{0, fr.i.mkError("write |1: broken pipe")}
+			}
+			e.p.buf = append(e.p.buf, b...)
+			return tuple{len(b), iface{}}
+		},
 	},
+}
+
+type pipeObj struct {
+	buf              []value
+	wclosed, rclosed bool
+}
+
+type pipeEnd struct {
+	p     *pipeObj
+	write bool
+}
+
+func pipeEndOf(fr *frame, f value) *pipeEnd {
+	p, ok := f.(*value)
+	if !ok || p == nil {
+		return nil
+	}
+	st, ok := (*p).(structure)
+	if !ok || len(st) == 0 {
+		return nil
+	}
+	e, _ := st[0].(*pipeEnd)
+	return e
+}
+
+func loadGlobalErr(fr *frame, pkg, name string) value {
+	p := fr.i.prog.ImportedPackage(pkg)
+	if p == nil {
+		panic(pathEnd{stUnsupported, "package " + pkg + " not loaded"})
+	}
+	g, ok := p.Members[name].(*ssa.Global)
+	if !ok {
+		panic(pathEnd{stUnsupported, "no global " + pkg + "." + name})
+	}
+	return *fr.i.globalAddr(g)
 }
